@@ -38,7 +38,8 @@ handle_arbitrary (SF_PRIVATE *psf, int channels, int bytewidth)
 	VASSUME (nd_wcur >= 0 && nd_wcur <= nd_frames + 1) ;	/* sf_seek lets the write pointer pass the end */
 	psf->read_current = (nd_mode == SFM_WRITE) ? 0 : nd_rcur ;
 	psf->write_current = (nd_mode == SFM_READ) ? 0 : nd_wcur ;
-	VASSUME (nd_lastop == SFM_READ || nd_lastop == SFM_WRITE) ;
+	/* (psf_open_file leaves last_op = file.mode: on a freshly opened RDWR handle it is SFM_RDWR until the first read or write) */
+	VASSUME (nd_lastop == SFM_READ || nd_lastop == SFM_WRITE || (nd_lastop == SFM_RDWR && nd_mode == SFM_RDWR)) ;
 	psf->last_op = nd_lastop ;
 	VASSUME (nd_written == SF_TRUE || nd_written == SF_FALSE) ;
 	psf->have_written = nd_written ;
